@@ -39,7 +39,7 @@ W_CONS = {'alloc_put': 30, 'alloc_post': 18, 'reshape': 10, 'alloc_del': 12,
 
 SEQ = {
     'C01': dict(models=['MC_alloc'], weights=W_ALLOC,
-                scenarios=['reshape_moves_class', 'drop_class_in_use', 'joint_overflow', 'reshape_tightens_units'],
+                scenarios=['reshape_moves_class', 'drop_class_in_use', 'joint_overflow', 'reshape_tightens_units', 'list_form_duplicates'],
                 quick=(36, 45), thorough=(900, 60)),
     'C04': dict(models=['MC_alloc'], weights=W_ALLOC,
                 scenarios=['f9_unknown_provider_new_consumer',
@@ -60,7 +60,7 @@ SEQ = {
     'C11': dict(models=['MC_forest', 'MC_alloc'], weights={}, read_after_write=True,
                 scenarios=['reshape_moves_class', 'consumer_lifecycle',
                            'drop_class_in_use', 'names_lifecycle',
-                           'subtree_moves', 'joint_overflow', 'usage_views', 'reshape_tightens_units', 'f7_empty_write_unknown_consumer',
+                           'subtree_moves', 'joint_overflow', 'usage_views', 'reshape_tightens_units', 'list_form_duplicates', 'f7_empty_write_unknown_consumer',
                            'f9_unknown_provider_new_consumer'],
                 replay=dict(quick=(4, 30, 2), thorough=(40, 60, 12)), gabbi=True,
                 quick=(48, 35), thorough=(1500, 50)),
